@@ -48,6 +48,18 @@ def sweep {S K : Type} (r : Rec S K) (ns : List Nat) : Option (List K) :=
   | none => none
   | some mx => finish ns (sweepLoop r ns (mx+1) 0 r.init ([], 0))
 
+/-! ## literal reading of the array `out` (used by the statement-level translation of the `*_seq` bodies) -/
+
+/-- `out = np.empty((len(ns), …))`: one entry per row, `none` = not yet written (garbage) -/
+abbrev Rows (K : Type) := List (Option K)
+def emptyRows {K : Type} (n : Nat) : Rows K := List.replicate n none
+/-- `out[k] = v` -/
+def setRow {K : Type} (out : Rows K) (k : Nat) (v : K) : Rows K := out.set k (some v)
+/-- `return out`: a value only when every row has been written -/
+def finishRows {K : Type} (out : Rows K) : Option (List K) := out.mapM id
+/-- `ns[-1]` -/
+def lastOrder (ns : List Nat) : Int := ((ns.getLastD 0 : Nat) : Int)
+
 /-! ## the families as `Rec`s -/
 section families
 variable {K : Type} [Num K]
